@@ -140,3 +140,13 @@ package packet
 //@   ensures protocol == 12 && len(data) >= 60 && data[6] == 6 ==> err == nil && isboxed(p.L3, IPv6Header) && ipv6At(unbox(p.L3, IPv6Header), data)
 //@       && isboxed(p.L4, TCPHeader) && tcpAt(unbox(p.L4, TCPHeader), data[40:])
 //@   modifies p
+
+// >>> field snapshots (govc -gen-names)
+//@ fields Datalink SrcMAC DstMAC Vlan EtherType
+//@ fields ICMP Type Code RestHeader
+//@ fields IPv4Header Version TOS TotalLen ID Flags FragOff TTL Protocol Checksum Src Dst
+//@ fields IPv6Header Version TrafficClass FlowLabel PayloadLen NextHeader HopLimit Src Dst
+//@ fields Packet L2 L3 L4 data
+//@ fields TCPHeader SrcPort DstPort DataOffset Reserved Flags
+//@ fields UDPHeader SrcPort DstPort
+// <<< field snapshots
